@@ -12,6 +12,7 @@ PROP = dict(
         "MM.C18.C18_lock_state_transitions",
         "MM.C18.C18_lock_fin_flags",
         "MM.C18.C18_lock_closewrite_once",
+        "MM.C18.C18_lock_state_rmw_one_region",
         "MM.C18.C18_data_before_eof",
         "MM.C18.C18_fifo",
         "MM.C18.C18_frames_may_arrive_later",
